@@ -146,7 +146,14 @@ func Discharge(obs []*Obligation, cfg SolverCfg) {
 	wg.Wait()
 }
 
+var failedNames sync.Map // obligation name -> true once one instance failed after stage 2
+
 func dischargeOne(ob *Obligation, cfg SolverCfg) {
+	defer func() {
+		if ob.Status != "unsat" && !ob.Cover && !strings.HasPrefix(ob.Solver, "skipped") {
+			failedNames.Store(ob.Name, true)
+		}
+	}()
 	text := ob.text
 	if text == "" {
 		text = ob.SMT(false)
@@ -252,6 +259,15 @@ func dischargeOne(ob *Obligation, cfg SolverCfg) {
 		// vacuity cover: only a quick 'unsat' matters; anything else means the path is (possibly) feasible
 		ob.Status, ob.Solver, ob.Time = st, "z3-new", total
 		solveCache.Store(key, &cached{ob.Status, ob.Solver, "", total})
+		return
+	}
+	// another instance (path) of the same named obligation has already failed after full effort:
+	// the obligation is reported once by name, spending the full budget on every instance adds nothing
+	if _, failed := failedNames.Load(ob.Name); failed {
+		ob.Status, ob.Solver, ob.Time = st, "skipped(another instance of this obligation already failed)", total
+		if ob.Status == "unsat" {
+			ob.Status = "unknown"
+		}
 		return
 	}
 	// stage 2: race all three
